@@ -541,9 +541,11 @@ def run_cli_many(jobs, release=False, timeout=60):
     binary = sfs_path(release)
 
     def one(job):
-        argv, data = job
+        argv, data = job[0], job[1]
+        cpus = job[2] if len(job) > 2 else None      # optional: the set of CPUs the process may run on
         try:
-            p = subprocess.run([binary] + list(argv), input=data, capture_output=True, timeout=timeout, env=ENV)
+            pre = (lambda: os.sched_setaffinity(0, cpus)) if cpus else None
+            p = subprocess.run([binary] + list(argv), input=data, capture_output=True, timeout=timeout, env=ENV, preexec_fn=pre)
             return (p.returncode, p.stdout, p.stderr)
         except subprocess.TimeoutExpired:
             return (-999, b"", b"timeout")
